@@ -113,7 +113,25 @@ namespace net
     std::vector<bool> dec_undef;      // per standing decision: was the literal unassigned when assumed?
     bool dirty = false;               // something was enqueued at root without propagate()
     bool dead = false;                // a root-level false was returned
-    std::ostringstream log;
+    // the history as text; with VERIF_TRACE set every piece is also written to stderr at once (for histories that end in an abort)
+    struct TeeLog
+    {
+      std::ostringstream os;
+      bool tee = getenv("VERIF_TRACE") != nullptr;
+      template <class T>
+      TeeLog &operator<<(const T &v)
+      {
+        os << v;
+        if (tee)
+        {
+          std::ostringstream t;
+          t << v;
+          fputs(t.str().c_str(), stderr);
+        }
+        return *this;
+      }
+      std::string str() const { return os.str(); }
+    } log;
     pbt::Result *res = nullptr;
     std::vector<Pending> pending;
     // feature counters
@@ -502,6 +520,21 @@ namespace net
       std::vector<z3::expr> before = zD();
       bool undef = sat.value(p) == Undefined;
       size_t lvl = sat.decision_level();
+      if (log.tee)
+      { // trace mode: the state of the clause database right before the decision
+        log << "  [about to assume " << ls(p) << "]\n";
+        for (auto &cl : sat.verif_clauses())
+        {
+          int nf = 0, nu = 0, nt = 0;
+          for (auto &l : cl) (sat.value(l) == False ? nf : sat.value(l) == True ? nt : nu)++;
+          if (nt == 0 && nu <= 1)
+          {
+            log << (nu == 0 ? "    FALSIFIED clause {" : "    UNIT-PENDING clause {");
+            for (auto &l : cl) log << ls(l) << (sat.value(l) == False ? "=F " : sat.value(l) == True ? "=T " : "=U ");
+            log << "}\n";
+          }
+        }
+      }
       bool r = sat.assume(p);
       dec_undef.push_back(undef);
       sync_decisions();
@@ -538,7 +571,10 @@ namespace net
     void do_next()
     {
       settle();
-      if (dead || sat.root_level() || dec_undef.empty() || !dec_undef.back()) return;
+      // precondition taken from the callers: next() is only used by the planner, whose decisions are always taken on unassigned
+      // literals (solver::take_decision asserts it). A no-good built from a decision on an ALREADY TRUE literal contains a literal
+      // that is false at a lower level than next() assumes; check() makes such decisions but never calls next().
+      if (dead || sat.root_level() || dec_undef.empty() || std::find(dec_undef.begin(), dec_undef.end(), false) != dec_undef.end()) return;
       bool r = sat.next();
       sync_decisions();
       log << "  next -> " << (r ? "true" : "false") << "  (level " << sat.decision_level() << ")\n";
